@@ -128,7 +128,7 @@ fn main() {
     jjv::run("C18", "C18", |ctx| {
         dagrepo::use_scratch(&ctx.scratch);
         let settings = dagrepo::settings();
-        for i in ctx.indices() {
+        let results = dagrepo::par_cases(&*ctx, |ctx, i| -> dagrepo::CaseOut {
             let mut rng = ctx.rng(i);
             let thorough = ctx.tier == "thorough";
             let n = if rng.chance(1, 10) {
@@ -319,6 +319,7 @@ fn main() {
                 }
                 (snaps, level_obs, merge_obs, files, max_levels, concurrent, reindexed)
             });
+            let mut panicked = false;
             let (term, nontrivial, shape_s) = match res {
                 Some((snaps, level_obs, merge_obs, files, max_levels, concurrent, reindexed)) => {
                     let n_max = snaps.iter().map(|s| s.n).max().unwrap_or(0);
@@ -342,11 +343,17 @@ fn main() {
                     (term, n_max >= 5 && nq >= 8, shape_s)
                 }
                 None => {
-                    ctx.panicked();
+                    panicked = true;
                     ("(mk_case [] [] [] [] true)".to_string(), false, "panic".to_string())
                 }
             };
-            ctx.emit(i, term, nontrivial, shape_s.trim());
+            dagrepo::CaseOut { term, nontrivial, shape: shape_s.trim().to_string(), panicked }
+        });
+        for (i, r) in results {
+            if r.panicked {
+                ctx.panicked();
+            }
+            ctx.emit(i, r.term, r.nontrivial, &r.shape);
         }
     });
 }
